@@ -307,6 +307,48 @@ pub fn check(prop: &str, tier: &str) -> i32 {
             }
         }
     }
+    // many revisions of the same rights, never pruned: every rekey of a narrow policy must publish
+    // values never published before (for the rights it covers), over several hundred revisions
+    let narrow_rekeys: u32 = if thorough { 1_100 } else { 300 };
+    {
+        let cc = Covercrypt::default();
+        let mut msk = MasterSecretKey::deserialize(&base_msk).expect("base msk");
+        let ap = AccessPolicy::parse("A::x").unwrap();
+        let mut published: HashMap<Vec<u8>, u32> = HashMap::new();
+        let mut last: BTreeMap<Vec<u8>, Vec<u8>> = BTreeMap::new();
+        if let Ok(w) = WMpk::decode(&base_mpk) {
+            for (r, k) in &w.keys {
+                published.insert(k.h.clone(), 0);
+                last.insert(r.clone(), k.h.clone());
+            }
+        }
+        let mut covered = 0;
+        'narrow: for i in 1..=narrow_rekeys {
+            let Ok(mpk) = cc.rekey(&mut msk, &ap) else {
+                run.report(None, "C16.d", &format!("rekey A::x #{i} on a never-pruned master key failed"), json!({"engine": "seqfresh-revisions", "call": i}));
+                break;
+            };
+            let Ok(w) = WMpk::decode(&ser(&mpk)) else { machinery("public key does not decode") };
+            let mut changed = 0;
+            for (r, k) in &w.keys {
+                if last.get(r) != Some(&k.h) {
+                    changed += 1;
+                    if let Some(prev) = published.insert(k.h.clone(), i) {
+                        run.report(None, "C16.d", &format!("rekey A::x #{i} publishes for right {} a value already published by rekey #{prev}", wire::hex(r)), json!({"engine": "seqfresh-revisions", "call": i}));
+                        break 'narrow;
+                    }
+                    last.insert(r.clone(), k.h.clone());
+                }
+            }
+            if i == 1 {
+                covered = changed;
+            }
+            if changed == 0 || changed != covered {
+                run.report(None, "C16.d", &format!("rekey A::x #{i} changed the published value of {changed} rights, the first one changed {covered}"), json!({"engine": "seqfresh-revisions", "call": i}));
+                break;
+            }
+        }
+    }
     // C16.e over every one-byte authentication data (and absent / empty / longer): whatever the
     // authentication data, the returned secret must not decrypt the metadata
     {
@@ -342,6 +384,7 @@ pub fn check(prop: &str, tier: &str) -> i32 {
     if seeded(7) == seeded(8) {
         run.report(None, "C16.a", "two instances built from different seeds give the same first encapsulation", json!({"engine": "seqfresh-seed"}));
     }
+    run.set("revisions_of_one_right_without_pruning", json!(narrow_rekeys));
     run.set("evaluations", json!(jobs.len() as u64 + u64::from(call_no)));
     run.set("distinct_nontrivial", json!(global.len() as u64 + seen.len() as u64));
     run.set("rule", json!(format!("every sequence of length <= {depth} over 14 symbols (encaps, encrypt, header, header with empty metadata, keygen, rekey *, setup; each on instance 1 or 2 of two Covercrypt instances sharing one master key; identical arguments every time) is executed on fresh instances; from every output the freshness-bearing fields are extracted with the independent decoder (returned secret, tag, traps, masked seeds, ML-KEM ciphertexts, AEAD nonces, user ids and markers, published H / ek, tracing points, master scalar, signing key) and must be pairwise distinct within the sequence and across all sequences; one long path of {n_enc} encaps + {n_ctx} encrypt + {n_key} keygen + {n_rekey} rekey/header/encaps on one instance pair; seeded-instance self-test. distinct_nontrivial = distinct field values collected")));
